@@ -242,6 +242,13 @@ class World(Sim):
                 self.excluded += 1
                 return None
             self.flags.append('commit-update1-after-cancel-miscounts')
+        if u['update_id'] != 1 and not u['committed'] and any(x['batch'] is u['batch'] and x['update_id'] == 1 and not x['committed'] and x['sent_jobs']
+                                                              for x in self.updates):
+            # same known finding, other order: a later update is committed while the first update's Ready jobs are still uncommitted
+            if 'uncommitted-update1-job-scheduled' in self.guards:
+                self.excluded += 1
+                return None
+            self.flags.append('uncommitted-update1-job-scheduled')
         r = await self._guard(self.m.fe._commit_update(self.app, u['batch_id'], u['update_id'], u['batch']['user'], self.db))
         if r['ok']:
             u['committed'] = True
@@ -489,7 +496,25 @@ WHERE {where} ORDER BY jobs.batch_id, jobs.job_id''', args)
 
     async def op_unschedule(self, att_i):
         # callers of unschedule_job (cancel-running loop, orphaned-attempt loop) only pass attempts on ACTIVE instances
-        a = self._pick([x for x in self.attempts if x['instance'] in self.instances and self.instances[x['instance']].state == 'active'], att_i)
+        #   - cancel_cancelled_running_jobs: the current attempt of a Running, cancelled, non-always-run job
+        #   - cancel_orphaned_attempts: a started, un-ended attempt that is not the current attempt of a Running/Creating job
+        from .oracle import View
+        v = View(self.snap(['batches', 'jobs', 'job_groups', 'job_group_self_and_ancestors', 'job_groups_cancelled', 'batch_updates',
+                            'job_parents', 'attempts']))
+        cands = []
+        for x in self.attempts:
+            if x['instance'] not in self.instances or self.instances[x['instance']].state != 'active':
+                continue
+            j = v.jobs.get((x['batch_id'], x['job_id']))
+            row = v.attempts.get((x['batch_id'], x['job_id'], x['attempt_id']))
+            if j is None or row is None:
+                continue
+            current = j['state'] in ('Running', 'Creating') and j['attempt_id'] == x['attempt_id']
+            if current and j['state'] == 'Running' and v.job_cancelled(j):
+                cands.append(x)
+            elif not current and row['start_time'] is not None and row['end_time'] is None:
+                cands.append(x)
+        a = self._pick(cands, att_i)
         if a is None:
             return None
         rec = dict(batch_id=a['batch_id'], job_id=a['job_id'], attempt_id=a['attempt_id'], instance_name=a['instance'])
